@@ -220,6 +220,22 @@ def observe(followup=True):
       obs['followup'] = gin.config_str(show_provenance=True)
     except Exception as e:  # pylint: disable=broad-except
       obs['followup'] = 'raised %s' % type(e).__name__
+    # ... and parsing the very same files again (now without the fault) behaves as in a fresh process
+    good = {}
+    for name, sts in list(INC.items()) + list(DINC.items()):
+      good[name] = '\n'.join(render_stmt(x) for x in sts) + '\n'
+    saved = dict(MEM)
+    MEM.clear()
+    MEM.update(good)
+    for inc in ('inc1.gin', 'dinc1.gin'):
+      try:
+        with gin.unlock_config():
+          r = gin.parse_config_file(inc)
+        obs['refile:' + inc] = (repr(r), sorted((k, sorted(v)) for k, v in cfg._CONFIG.items()))
+      except Exception as e:  # pylint: disable=broad-except
+        obs['refile:' + inc] = 'raised %r' % (e,)
+    MEM.clear()
+    MEM.update(saved)
   return obs
 
 
